@@ -5,11 +5,21 @@ model: each law is the property's own text, checked with exact Fractions on dyad
 
 Histories are tried shortest first (the empty history on a default clock, then one change, ...),
 so the first hit of a law is close to a minimal failing input."""
-import json, os, random, sys
+import json, math, os, random, sys, threading, time
 from fractions import Fraction as Fr
 
 import sc3
-sc3.init(os.environ.get('SC3_MODE', 'nrt'))
+MODE = os.environ.get('SC3_MODE', 'nrt')
+if MODE == 'rt':
+    # RT: the same laws on a real clock thread.  The clock gets an explicit dyadic reference second and
+    # everything is observed from routines on the clock in LOGICAL time, so the numbers are exact and
+    # do not depend on load; this reaches the code the NRT run cannot (the setters pair logical beats
+    # with seconds while physical time differs; the clock thread's queue is keyed by beats).
+    sc3.LIB_PORT = int(os.environ.get('SC3_LIB_PORT', '58300'))
+    sc3.LIB_PORT_RANGE = 8
+sc3.init(MODE)
+import logging
+logging.disable(logging.CRITICAL)
 import sc3.base.clock as clk
 from sc3.base.clock import TempoClock, SystemClock, Quant
 from sc3.base.stream import Routine
@@ -20,10 +30,10 @@ CUR = {'init': []}
 
 
 def rec(law, history, call, got, why):
-    b = {'law': law, 'constructor': 'TempoClock%r' % (tuple(CUR['init']),), 'history': history, 'call': call,
+    b = {'law': law, 'mode': MODE, 'constructor': 'TempoClock%r' % (tuple(CUR['init']),), 'history': history, 'call': call,
          'got': got, 'why': why,
-         'how': 'sc3.init("nrt"); create the clock and apply the history from a routine playing on it '
-                '(["yield", d] = yield d), then make the call'}
+         'how': 'sc3.init("%s"); create the clock and apply the history from a routine playing on it '
+                '(["yield", d] = yield d, ["play", q, p] = Routine(..).play(clock, Quant(q, p))), then make the call' % MODE}
     if len([x for x in bad if x['law'] == law]) < 2 and b not in bad:
         bad.append(b)
 
@@ -60,7 +70,10 @@ def probe_queries(c, hist):
         # the grid
         G = Fr(c._base_bar_beat)
         for q, p in QUANTS:
-            for ref in REFS + [b, None]:
+            # also reference beats around the grid origin base_bar_beat (+ phase), where
+            # refbeat - base_bar_beat - phase is negative, zero or just positive
+            near = [float(G) + d for d in (p, p - 0.125, p + 0.125, -q, -0.25, 0.0, p - q, 0.375)]
+            for ref in REFS + near + [b, None]:
                 g = c.next_time_on_grid(q, p) if ref is None else c.next_time_on_grid(q, p, ref)
                 r = Fr(b) if ref is None else Fr(ref)
                 call = 'next_time_on_grid(%r, %r%s)' % (q, p, '' if ref is None else ', %r' % ref)
@@ -109,44 +122,65 @@ def probe_queries(c, hist):
         rec('raised', H, 'queries', '%s: %s' % (type(e).__name__, e), 'a query raised on valid arguments')
 
 
-def run_history(hist, init, plays):
-    """hist: list of (kind, value, yield_after)."""
-    M.reset()
+def run_history(hist, init, plays, play_after=1):
+    """hist: list of (kind, value, yield_after).  The routines of `plays` are played with their Quant right
+    after the first `play_after` changes, so the remaining changes happen between play and wake-up."""
+    rt = MODE == 'rt'
+    if not rt:
+        M.reset()
     CUR['init'] = list(init)
     done = []
+    expected = [0]
+    finished = threading.Event()
+    state = {'driver': False}
+
+    def check_done():
+        if state['driver'] and len(done) == expected[0]:
+            finished.set()
 
     def spawn(c, q, p, H):
         at = Fr(c.beats)
+        G = Fr(c._base_bar_beat)
         want = c.next_time_on_grid(q, p)
+        Hp = H + [['play', q, p]]
 
         def child(inval):
             got = inval[1].beats
+            secs = inval[1].seconds
             done.append(1)
+            call = 'play(quant=Quant(%r, %r)) at beat %r, then the rest of the history' % (q, p, float(at))
             if Fr(got) != Fr(want):
-                rec('play_quant_schedules_on_grid', H, 'play(quant=Quant(%r, %r)) at beat %r' % (q, p, float(at)), repr(got),
-                    'the routine first ran at beat %r, next_time_on_grid gave %r' % (got, want))
-            G = Fr(inval[1]._base_bar_beat)
-            if q > 0 and (not is_int((Fr(got) - G - Fr(p)) / Fr(q)) or Fr(got) < at or Fr(got) >= at + Fr(q)):
-                rec('play_quant_schedules_on_grid', H, 'play(quant=Quant(%r, %r)) at beat %r' % (q, p, float(at)), repr(got),
+                rec('play_quant_schedules_on_grid', Hp + HIST[len(H):], call, repr(got),
+                    'the routine first ran at beat %r, next_time_on_grid gave %r at play time' % (got, want))
+            elif Fr(inval[1].beats2secs(want)) != Fr(secs):
+                rec('play_quant_schedules_on_grid', Hp + HIST[len(H):], call, repr(secs),
+                    'first ran at second %r, beats2secs(%r) is %r' % (secs, want, inval[1].beats2secs(want)))
+            if q > 0 and (not is_int((Fr(want) - G - Fr(p)) / Fr(q)) or Fr(want) < at or Fr(want) >= at + Fr(q)):
+                rec('play_quant_schedules_on_grid', Hp, call, repr(want),
                     'not the earliest beat congruent to phase mod quant from base_bar_beat %r that is not before the current beat' % float(G))
+            check_done()
+        expected[0] += 1
         Routine(child).play(c, Quant(q, p))
-        return 1
 
-    expected = [0]
+    HIST = []      # the history so far, shared with the children for their reports
 
     def driver(inval):
         c = inval[1]
-        H = []
-        probe_queries(c, H)
+        probe_queries(c, [])
+        n = 0
+        if play_after == 0:
+            for q, p in plays:
+                spawn(c, q, p, list(HIST))
         for kind, v, y in hist:
             now = c.seconds
             b0 = c.beats
             bars0 = c.beats2bars(b0)
+            H = list(HIST)
             try:
                 if kind == 'tempo':
                     c.tempo = v
                     if Fr(c.beats) != Fr(b0) or Fr(c.beats2secs(b0)) != Fr(now):
-                        rec('tempo_change_continuous', H + [[kind, v]], 'tempo = %r at seconds %r, beat %r' % (v, now, b0),
+                        rec('tempo_change_continuous', H + [[kind, v]], 'tempo = %r at logical seconds %r, beat %r' % (v, now, b0),
                             repr((c.beats, c.beats2secs(b0))), 'the current (beat, second) pair must stay (%r, %r)' % (b0, now))
                 elif kind == 'etempo':
                     el = M.elapsed_time()
@@ -155,10 +189,12 @@ def run_history(hist, init, plays):
                     if Fr(c.secs2beats(el)) != Fr(e0) or Fr(c.beats2secs(e0)) != Fr(el):
                         rec('etempo_continuous', H + [[kind, v]], 'etempo(%r) at elapsed %r' % (v, el), repr(c.secs2beats(el)),
                             'the beat of the elapsed time must stay %r' % e0)
-                elif kind == 'beats':
+                elif kind in ('beats', 'beats_rel'):
+                    if kind == 'beats_rel':
+                        v = b0 + v
                     c.beats = v
                     if Fr(c.beats) != Fr(v) or Fr(c.beats2secs(v)) != Fr(now):
-                        rec('beats_set_continuous', H + [[kind, v]], 'beats = %r at seconds %r' % (v, now), repr((c.beats, c.beats2secs(v))),
+                        rec('beats_set_continuous', H + [['beats', v]], 'beats = %r at logical seconds %r' % (v, now), repr((c.beats, c.beats2secs(v))),
                             'beats must read %r now and beats2secs of it must be %r' % (v, now))
                 elif kind == 'meter':
                     c.beats_per_bar = v
@@ -171,38 +207,87 @@ def run_history(hist, init, plays):
                             'the current beat must become a bar line numbered with the nearest integer')
             except Exception as e:
                 rec('raised', H + [[kind, v]], kind, '%s: %s' % (type(e).__name__, e), 'a valid change raised')
-            H = H + [[kind, v]]
-            probe_queries(c, H)
+            HIST.append([kind, v])
+            n += 1
+            probe_queries(c, list(HIST))
+            if n == play_after:
+                for q, p in plays:
+                    spawn(c, q, p, list(HIST))
             if y:
                 yield y
-                H = H + [['yield', y]]
-        for q, p in plays:
-            expected[0] += spawn(c, q, p, H)
+                HIST.append(['yield', y])
+        if n < play_after:
+            for q, p in plays:
+                spawn(c, q, p, list(HIST))
 
-    def boot(inval):
-        c = TempoClock(*init)
-        q0, p0 = plays[0] if plays else (1, 0)
-        at = Fr(c.beats)
-        want = c.next_time_on_grid(q0, p0)
+    q0, p0 = plays[0] if plays else (1, 0)
 
-        def first(inval2):
-            got = inval2[1].beats
-            if Fr(got) != Fr(want) or Fr(got) < at:
-                rec('play_quant_schedules_on_grid', [], 'TempoClock%r; play(quant=Quant(%r, %r)) at beat %r' % (tuple(init), q0, p0, float(at)),
-                    repr(got), 'next_time_on_grid gave %r' % want)
+    def first(inval2):
+        c = inval2[1]
+        got = c.beats
+        if not rt and (Fr(got) != Fr(first_want[0]) or Fr(got) < first_at[0]):
+            rec('play_quant_schedules_on_grid', [], 'TempoClock%r; play(quant=Quant(%r, %r)) at beat %r' % (tuple(init), q0, p0, float(first_at[0])),
+                repr(got), 'next_time_on_grid gave %r' % first_want[0])
+        if q0 > 0 and (not is_int((Fr(got) - Fr(p0)) / Fr(q0)) or Fr(got) < first_at[0]):
+            rec('play_quant_schedules_on_grid', [], 'TempoClock%r; play(quant=Quant(%r, %r)) at beat %r' % (tuple(init), q0, p0, float(first_at[0])),
+                repr(got), 'the first run is off the grid or before the beat of the play')
+        try:
             yield from driver(inval2)
+        finally:
+            state['driver'] = True
+            check_done()
+
+    first_want, first_at = [None], [None]
+
+    def start(c):
+        first_at[0] = Fr(c.beats)
+        first_want[0] = c.next_time_on_grid(q0, p0)
         Routine(first).play(c, Quant(q0, p0))
 
-    Routine(boot).play(SystemClock)
-    M.process()
-    if len(done) != expected[0]:
-        rec('play_quant_schedules_on_grid', [list(h[:2]) for h in hist], 'play', '%d of %d played routines ran' % (len(done), expected[0]), 'every played routine must run')
+    if rt:
+        t0 = math.floor((M.elapsed_time() + 0.03) * 256) / 256
+        args = list(init) + [None] * (3 - len(init))
+        args[2] = t0
+        CUR['init'] = args
+        c = TempoClock(*args)
+        start(c)
+        if not finished.wait(6.0):
+            rec('play_quant_schedules_on_grid', [list(h[:2]) for h in hist], 'run', 'driver finished=%s, %d of %d played routines ran within 6 s'
+                % (state['driver'], len(done), expected[0]), 'every played routine must run')
+        c.stop()
+    else:
+        def boot(inval):
+            start(TempoClock(*init))
+        Routine(boot).play(SystemClock)
+        M.process()
+        if len(done) != expected[0] or not state['driver']:
+            rec('play_quant_schedules_on_grid', [list(h[:2]) for h in hist], 'play', '%d of %d played routines ran' % (len(done), expected[0]),
+                'every played routine must run')
 
 
 def main():
     spec = json.load(open(sys.argv[1]))
     rng = random.Random(spec.get('seed', 0))
     n = spec.get('n', 150)
+    plays = [(4, 0), (4, -1), (1, 0.5), (1.5, -1.25), (3, 2)]
+    if MODE == 'rt':
+        tempi = [2.0, 4.0, 8.0, 16.0, 4]
+        meters = [0.5, 1.0, 2.0, 2]
+        rplays = [(1, 0), (0.5, 0.25), (1, -0.25), (0.75, 0.5), (1.5, -1.25)]
+
+        def rop():
+            k = rng.choice(['tempo', 'tempo', 'tempo', 'beats_rel', 'meter'])
+            v = rng.choice(tempi) if k == 'tempo' else rng.choice(meters) if k == 'meter' else rng.choice([0.0, 0.25, 0.625, 1.5])
+            return (k, v, rng.choice([0, 0.125, 0.25, 0.5]))
+        # shortest first: one tempo change from a routine on the clock, after a yield (so that logical and physical time differ)
+        run_history([('beats_rel', 0.0, 0.25), ('tempo', 4.0, 0.125)], (2.0, 0.0), rplays[:2])
+        run_history([('meter', 2.0, 0.25), ('tempo', 8.0, 0.25), ('beats_rel', 0.625, 0.125)], (4.0, 1.25), rplays[2:4])
+        for i in range(n):
+            run_history([rop() for _ in range(1 + i % 3)], (rng.choice(tempi), rng.choice([0.0, 1.25, -3.0])), rng.sample(rplays, 2),
+                        play_after=rng.choice([0, 1, 1]))
+        json.dump({'bad': bad, 'mode': MODE}, open(sys.argv[2], 'w'))
+        sys.stdout.flush()
+        os._exit(0)
     tempi = [0.25, 0.5, 1.0, 2.0, 4.0, 2, 8]
     meters = [0.5, 1.0, 2.0, 4.0, 8.0, 2, 4]
     beats = [0.0, 1.0, 2.5, -3.0, 7.75, 100.5, 5]
@@ -211,7 +296,6 @@ def main():
         k = rng.choice(['tempo', 'tempo', 'etempo', 'beats', 'meter', 'meter'])
         v = rng.choice(tempi if k in ('tempo', 'etempo') else meters if k == 'meter' else beats)
         return (k, v, rng.choice([0, 0.25, 1.0, 1.5, 3.0]))
-    plays = [(4, 0), (4, -1), (1, 0.5), (1.5, -1.25), (3, 2)]
     # shortest first
     run_history([], (), [(1, 0)])
     run_history([], (2.0,), plays)
@@ -219,11 +303,17 @@ def main():
         for v in (tempi[3:5] if k in ('tempo', 'etempo') else meters[2:4] if k == 'meter' else beats[2:4]):
             for y in (0, 1.5):
                 run_history([('beats', 0.0, 1.25), (k, v, y)], (), plays[:2])
+    # a meter change at a beat where base_bar_beat - base_bar is not a multiple of the quants probed afterwards
+    for b0, bpb in ((1.25, 4.0), (2.75, 3.0 if False else 2.0), (0.375, 4.0), (5.5, 8.0)):
+        run_history([('beats', 0.0, b0), ('meter', bpb, 0.625), ('meter', 4.0, 0)], (), plays[1:4])
+    # changes between a play and its wake-up
+    run_history([('beats', 0.0, 0.25), ('tempo', 2.0, 0.5), ('tempo', 0.5, 0)], (), plays[:3])
+    run_history([('beats', 0.0, 0.25), ('beats', 1.5, 0.25), ('etempo', 4.0, 0.125)], (), plays[:3])
     for i in range(n):
         ln = 1 + (i * 5) // max(n, 1)
         init = (rng.choice(tempi), rng.choice(beats), rng.choice([0.0, 1.5, 3.0, 0.25]))
-        run_history([op() for _ in range(ln)], init, rng.sample(plays, 2))
-    json.dump({'bad': bad}, open(sys.argv[2], 'w'))
+        run_history([op() for _ in range(ln)], init, rng.sample(plays, 2), play_after=rng.choice([0, 1, 1, 2]))
+    json.dump({'bad': bad, 'mode': MODE}, open(sys.argv[2], 'w'))
 
 
 main()
